@@ -54,7 +54,7 @@ RULE = ('streams: fm = every modelled class x member (+ .mgz) x EVERY case mix o
         'through filespec_to_file_map; fm-edge = same with empty/all-dots basename; fm-malformed/tf/parse/sae/codec/'
         'ext = hand-made malformed names + random token strings through every low-level function (enforce on/off, '
         'match_case on/off); save = real nib.save on a temp directory for all 10 writable classes (str and '
-        'pathlib.Path), observing the directory listing, per-file codec magic, generic load of the name and of every '
+        'pathlib.Path; NIfTI-1/2 single+pair, Analyze and SPM images built with BOTH header byte orders), observing the directory listing, per-file codec magic, generic load of the name and of every '
         'written file, to_bytes/to_stream/from_bytes/from_stream; save-cross = saving under another class\'s name; '
         'a case is distinct by (op, class, name[, flags]); every case is non-trivial (has a real name).')
 PENDING_FINDINGS = []
@@ -184,8 +184,18 @@ WRITABLE = ['Nifti1Pair', 'Nifti1Image', 'Nifti2Pair', 'Cifti2Image', 'Nifti2Ima
             'Spm99AnalyzeImage', 'AnalyzeImage', 'MGHImage', 'GiftiImage']
 
 
-def make_image(clsname):
+# classes whose header can be built in either byte order (`header_class(endianness=...)`); MGH is always
+# big-endian, GIFTI is XML, and Cifti2Image's constructor re-creates its NIfTI-2 header in native order
+ENDIAN_CLASSES = ('Nifti1Pair', 'Nifti1Image', 'Nifti2Pair', 'Nifti2Image', 'Spm2AnalyzeImage',
+                  'Spm99AnalyzeImage', 'AnalyzeImage')
+
+
+def make_image(clsname, endian=None):
     k = class_by_name(clsname)
+    if endian is not None and clsname in ENDIAN_CLASSES:
+        hdr = k.header_class(endianness=endian)
+        hdr.set_data_dtype(DATA_I16.dtype)
+        return k(DATA_I16.copy(), AFFINE.copy(), header=hdr)
     if clsname == 'Cifti2Image':
         from nibabel.cifti2 import cifti2_axes as ax
         sc = ax.ScalarAxis(['a', 'b'])
@@ -208,7 +218,8 @@ def data_digest(img):
     h = hashlib.sha1()
     for a in img_data(img):
         a = np.ascontiguousarray(a)
-        h.update(repr((a.shape, a.dtype.str)).encode())
+        a = a.astype(a.dtype.newbyteorder('='))      # values, not the byte order they were stored in
+        h.update(repr((a.shape, a.dtype.kind, a.dtype.itemsize)).encode())
         h.update(a.tobytes())
     return h.hexdigest()[:16]
 
@@ -274,22 +285,22 @@ class _SpyToFilename:
         self.fbi.FileBasedImage.to_filename = self.orig
 
 
-_SNIFF_TABLE = None
+_SNIFF_TABLE = {}
 
 
-def sniff_table():
-    """for every writable class W: which sniffing classes' `may_contain_header` accept the header W
-    writes (the external input of the model's `loadClass`)"""
-    global _SNIFF_TABLE
-    if _SNIFF_TABLE is not None:
-        return _SNIFF_TABLE
+def sniff_table(endian=None):
+    """for every writable class W (header written in byte order `endian` where W supports it): which
+    sniffing classes' `may_contain_header` accept the header W writes (the external input of the model's
+    `loadClass`)"""
+    if endian in _SNIFF_TABLE:
+        return _SNIFF_TABLE[endian]
     _, _, ic, _, _ = _nib()
     ent = []
     with tempfile.TemporaryDirectory() as tmp:
         for w in WRITABLE:
             k = class_by_name(w)
             exts = [e for _, e in k.files_types]
-            img = make_image(w)
+            img = make_image(w, endian)
             img.to_filename(os.path.join(tmp, 'sniff_' + w + exts[0]))
             hdr_ext = dict(k.files_types).get('header', exts[0])
             blob = decompress(open(os.path.join(tmp, 'sniff_' + w + hdr_ext), 'rb').read())
@@ -301,8 +312,8 @@ def sniff_table():
                     if len(b) >= c._meta_sniff_len and hc.may_contain_header(b):
                         acc.append(c.__name__)
             ent.append(w + ':' + ','.join(acc))
-    _SNIFF_TABLE = ';'.join(ent)
-    return _SNIFF_TABLE
+    _SNIFF_TABLE[endian] = ';'.join(ent)
+    return _SNIFF_TABLE[endian]
 
 
 # --------------------------------------------------------------------------- cases
@@ -327,13 +338,16 @@ def mk_simple(op, name, cls=None, flags=(), stream=None):
     return Case(' '.join(parts), d, (op, cls, name, tuple(flags)), stream or op)
 
 
-def mk_save(cls, dirpart, stem, ext, ext_sp, sfx_sp, as_path, stream='save'):
-    """save an image of class `cls` under <dir>/<stem><ext_sp><sfx_sp>; `ext` = canonical member extension"""
+def mk_save(cls, dirpart, stem, ext, ext_sp, sfx_sp, as_path, stream='save', endian=None):
+    """save an image of class `cls` under <dir>/<stem><ext_sp><sfx_sp>; `ext` = canonical member extension;
+    `endian` = byte order of the header the image is built with ('<', '>'; None = the class default)"""
     rel = (dirpart + '/' if dirpart else '') + stem + ext_sp + sfx_sp
+    if cls not in ENDIAN_CLASSES:
+        endian = None
     d = {'op': 'save', 'cls': cls, 'dir': dirpart, 'stem': stem, 'ext': ext, 'ext_sp': ext_sp, 'sfx_sp': sfx_sp,
-         'as_path': bool(as_path), 'stream': stream}
-    line = f'C12 save {cls} {tok(FAKE_ROOT + "/")} {tok(posix(FAKE_ROOT + "/" + rel))} {sniff_table()}'
-    return Case(line, d, ('save', cls, rel, bool(as_path)), stream)
+         'as_path': bool(as_path), 'stream': stream, 'endian': endian}
+    line = f'C12 save {cls} {tok(FAKE_ROOT + "/")} {tok(posix(FAKE_ROOT + "/" + rel))} {sniff_table(endian)}'
+    return Case(line, d, ('save', cls, rel, bool(as_path), endian), stream)
 
 
 def case_from_data(d):
@@ -342,7 +356,7 @@ def case_from_data(d):
         return mk_fm(d['cls'], d['name'], d.get('stream', 'fm'), d.get('meta'))
     if op == 'save':
         return mk_save(d['cls'], d['dir'], d['stem'], d['ext'], d['ext_sp'], d['sfx_sp'], d['as_path'],
-                       d.get('stream', 'save'))
+                       d.get('stream', 'save'), d.get('endian'))
     if op in ('tf', 'tforig', 'parse', 'sae', 'codec', 'ext'):
         return mk_simple(op, d['name'], d.get('cls'), d.get('flags', ()), d.get('stream'))
     raise ValueError(d)
@@ -480,14 +494,20 @@ def cases(rng, tier):
                 and c[5] in (c[5].lower(), c[5].upper())]
         rest = [c for c in full if c not in set(base)]
         chosen = base + rng.sample(rest, {'quick': 500, 'search': 1500}[tier])
-    for cls, dp, st, e, es, ss in chosen:
-        out.append(mk_save(cls, dp, st, e, es, ss, rng.random() < 0.4))
+    nbase = len(base) if tier != 'thorough' else 0
+    for i, (cls, dp, st, e, es, ss) in enumerate(chosen):
+        if cls in ENDIAN_CLASSES and (i < nbase or (tier == 'thorough' and dp == '')):
+            ends = ['<', '>']                      # both byte orders of the header
+        else:
+            ends = [rng.choice(['<', '>'])]
+        for en in ends:
+            out.append(mk_save(cls, dp, st, e, es, ss, rng.random() < 0.4, endian=en))
     # ---- edge stems (basename empty / all dots) and cross-class saves
     for cls in WRITABLE:
         for e in member_exts(cls):
             for dp, st in EDGE_STEMS[:3]:
                 for es in (e, e.upper()):
-                    out.append(mk_save(cls, dp, st, e, es, '', False, 'save-edge'))
+                    out.append(mk_save(cls, dp, st, e, es, '', False, 'save-edge', rng.choice(['<', '>'])))
     vol = ['Nifti1Pair', 'Nifti1Image', 'Nifti2Pair', 'Nifti2Image', 'Spm2AnalyzeImage', 'Spm99AnalyzeImage',
            'AnalyzeImage', 'MGHImage']
     for cls in vol:
@@ -500,7 +520,8 @@ def cases(rng, tier):
                         continue
                     ss = rng.choice(spellings(s))
                     dp, st = rng.choice(SHAPES)
-                    out.append(mk_save(cls, dp, st, e, es, ss, rng.random() < 0.3, 'save-cross'))
+                    out.append(mk_save(cls, dp, st, e, es, ss, rng.random() < 0.3, 'save-cross',
+                                       rng.choice(['<', '>'])))
     return out
 
 
@@ -598,7 +619,8 @@ def impl_save(case):
         full = os.path.join(tmp, rel)
         os.makedirs(os.path.dirname(full), exist_ok=True)
         given = pathlib.Path(full) if d['as_path'] else full
-        img = make_image(d['cls'])
+        en = d.get('endian')
+        img = make_image(d['cls'], en)
         with _SpyToFilename() as spy:
             try:
                 nib.save(img, given)
@@ -618,11 +640,17 @@ def impl_save(case):
         if d['as_path'] and ld not in ('ERR', 'NOFILE'):
             ld = type(nib.load(given)).__name__
         ex['load_same_data'] = ld not in ('ERR', 'NOFILE') and same_data(nib.load(given), make_image(d['cls']))
+        # class-level load of the same name by the class that wrote it
+        try:
+            cimg = class_by_name(spy.seen[-1]).from_filename(given)
+            ex['class_load'] = (type(cimg).__name__, data_digest(cimg))
+        except Exception as e:  # noqa: BLE001
+            ex['class_load'] = ('ERR:' + type(e).__name__, None)
         ex['sib'] = {f: lo[f] for f in files if lo[f][0] not in ('ERR', 'NOFILE')}
         wimg = spy_image_class = class_by_name(wrote)
         if issubclass(wimg, fbi.SerializableImage):
             try:
-                img2 = make_image(d['cls'])
+                img2 = make_image(d['cls'], en)
                 if wrote != d['cls']:
                     img2 = wimg.from_image(img2)
                 b = img2.to_bytes()
@@ -646,7 +674,7 @@ def impl_save(case):
         try:
             full2 = os.path.join(tmp2, rel)
             os.makedirs(os.path.dirname(full2), exist_ok=True)
-            nib.save(make_image(d['cls']), full2)
+            nib.save(make_image(d['cls'], en), full2)
             ex['second_equal'] = {f: open(os.path.join(tmp2, f), 'rb').read() for f in listing(tmp2)} == raw
         finally:
             shutil.rmtree(tmp2, ignore_errors=True)
@@ -715,15 +743,35 @@ def oracle_fm(d, out):
     return None
 
 
+def generic_vs_class_load(tag, out, ex):
+    """generic `load(name)` and `WritingClass.from_filename(name)` must agree (class up to the Analyze family, data)"""
+    cl = ex.get('class_load')
+    if not cl or not out.startswith('ok ') or cl[0].startswith('ERR'):
+        return None
+    got = out.split(' load=')[1].split(' ')[0]
+    if got in ('ERR', 'NOFILE'):
+        return f'{tag}: generic load fails ({got}) on a file that {cl[0]}.from_filename reads'
+    if got != cl[0] and not (got in ANALYZE_FAMILY and cl[0] in ANALYZE_FAMILY):
+        return f'{tag}: generic load gives {got}, class-level from_filename gives {cl[0]}'
+    if ex.get('load_digest') != cl[1]:
+        return f'{tag}: generic load and {cl[0]}.from_filename return different data'
+    return None
+
+
 def oracle_save(case, out):
     d = case.data
     ex = case.extra or {}
     cls, e, es, ss = d['cls'], d['ext'], d['ext_sp'], d['sfx_sp']
     k = class_by_name(cls)
     rel = posix(rel_of(d))
-    tag = f'{cls} saved as {rel!r}'
+    tag = f'{cls} saved as {rel!r}' + (f' (header byte order {d["endian"]})' if d.get('endian') else '')
     if d['stream'] == 'save-edge' or all_dots_basename((d['dir'] + '/' if d['dir'] else '') + d['stem']):
         return None       # basename empty/all dots: a hidden-file name, not <stem><ext> (see RULE)
+    # (SPM's `.mat` side-car names a file set for save, but no class lists it in valid_exts: not loadable by name)
+    if e != '.mat':
+        bad = generic_vs_class_load(tag, out, ex)
+        if bad:
+            return bad
     own = e in member_exts(cls) and (ss == '' or any(ss.lower() == s.lower() for s in k._compressed_suffixes))
     if d['stream'] == 'save-cross' or not own:
         # another class's name: whatever is written, the NAMED file must exist and load like the lower-case spelling
@@ -828,7 +876,10 @@ def signature(case, what):
         what_kind = ('files' if 'files written' in what or 'named file' in what or 'no file' in what else
                      'load' if 'load' in what else 'codec' if 'codec' in what else
                      'routes' if ('to_bytes' in what or 'from_bytes' in what or 'to_stream' in what) else 'other')
-        return f'{d["stream"]}:{d["ext"]}:{kind}:{what_kind}'
+        import sys
+        native = '<' if sys.byteorder == 'little' else '>'
+        order = ':swapped-header' if d.get('endian') not in (None, native) else ''
+        return f'{d["stream"]}:{d["ext"]}:{kind}:{what_kind}{order}'
     return 'lowlevel:' + d['op']
 
 
@@ -836,15 +887,15 @@ def shrink_candidates(case):
     d = case.data
     if d['op'] == 'save':
         if d['as_path']:
-            yield mk_save(d['cls'], d['dir'], d['stem'], d['ext'], d['ext_sp'], d['sfx_sp'], False, d['stream'])
+            yield mk_save(d['cls'], d['dir'], d['stem'], d['ext'], d['ext_sp'], d['sfx_sp'], False, d['stream'], d.get('endian'))
         if d['dir']:
-            yield mk_save(d['cls'], '', d['stem'], d['ext'], d['ext_sp'], d['sfx_sp'], d['as_path'], d['stream'])
+            yield mk_save(d['cls'], '', d['stem'], d['ext'], d['ext_sp'], d['sfx_sp'], d['as_path'], d['stream'], d.get('endian'))
         if d['stem'] != 'f':
-            yield mk_save(d['cls'], d['dir'], 'f', d['ext'], d['ext_sp'], d['sfx_sp'], d['as_path'], d['stream'])
+            yield mk_save(d['cls'], d['dir'], 'f', d['ext'], d['ext_sp'], d['sfx_sp'], d['as_path'], d['stream'], d.get('endian'))
         if d['sfx_sp']:
-            yield mk_save(d['cls'], d['dir'], d['stem'], d['ext'], d['ext_sp'], '', d['as_path'], d['stream'])
+            yield mk_save(d['cls'], d['dir'], d['stem'], d['ext'], d['ext_sp'], '', d['as_path'], d['stream'], d.get('endian'))
             if d['sfx_sp'] != d['sfx_sp'].lower():
-                yield mk_save(d['cls'], d['dir'], d['stem'], d['ext'], d['ext_sp'], d['sfx_sp'].lower(), d['as_path'], d['stream'])
+                yield mk_save(d['cls'], d['dir'], d['stem'], d['ext'], d['ext_sp'], d['sfx_sp'].lower(), d['as_path'], d['stream'], d.get('endian'))
     if d['op'] == 'fm' and d.get('meta'):
         e, es, ss, stem = d['meta']
         if stem != 'f':
